@@ -46,7 +46,7 @@ func c10Scenarios(r *vmc.Result) []rtScenario {
 			LocalKeys: []string{"10.1.0.0/16"}, LocalMet: m2[1:], DynKeys: []string{"10.0.0.0/8"}}),
 		rtMkScenario("d-rules", dd, p2, rtAlpha{Tbl: 'd', Keys: []string{"a.com", "A.com", "*.a.com"}, Peers: p2, Origins: o2, Seqs: s2, Metrics: mq, LoopAdv: true,
 			LocalKeys: []string{"a.com", "*.A.com"}, LocalMet: m2[1:]}),
-		rtMkScenario("f-rules", d, p2, rtAlpha{Tbl: 'f', Keys: []string{"web", "Web"}, Peers: p2, Origins: o2, Seqs: s2, Metrics: mq, LoopAdv: true,
+		rtMkScenario("f-rules", dd, p2, rtAlpha{Tbl: 'f', Keys: []string{"web", "Web"}, Peers: p2, Origins: o2, Seqs: s2, Metrics: mq, LoopAdv: true,
 			LocalKeys: []string{"web"}, LocalMet: m2[1:]}),
 		rtMkScenario("a-rules", d, p2, rtAlpha{Tbl: 'a', Keys: o2, Peers: p2, Origins: o2, Seqs: s2, Metrics: mq, LoopAdv: true}),
 		// all four tables in one manager: one key per table, so that an operation on one table
@@ -59,6 +59,8 @@ func c10Scenarios(r *vmc.Result) []rtScenario {
 	}
 	if r.Thorough() {
 		// agent routes whose origin differs from the target agent (the API allows it; the mesh never sends it)
+		scs = append(scs, rtMkScenario("f-rules-1peer", 5, p2[:1], rtAlpha{Tbl: 'f', Keys: []string{"web", "Web"}, Peers: p2[:1], Origins: o2, Seqs: s2, Metrics: mq, LoopAdv: true,
+			LocalKeys: []string{"web"}, LocalMet: m2[1:]}))
 		scs = append(scs, rtMkScenario("a-rules-any-origin", 4, p2, rtAlpha{Tbl: 'a', Keys: o2, Peers: p2, Origins: o2, Seqs: s2, Metrics: mq, LoopAdv: true, AgentAny: true}))
 	}
 	return scs
